@@ -262,6 +262,56 @@ func genC09(c *Ctx) {
 		}
 	}
 
+	// ---- search.Context.DocValueReaderForReader(r, fields): the doc value reader it hands out is looked up
+	// (and stored) under the reader argument — one collector / one Context serves the searchers of SEVERAL
+	// readers in bluge.MultiSearch, and a hit's sort value must be read from the reader the hit came from
+	dvf := sp.Func("Context.DocValueReaderForReader")
+	if dvf == nil || dvf.Body == nil || dvf.Type.Params == nil || len(dvf.Type.Params.List) == 0 || len(dvf.Type.Params.List[0].Names) == 0 {
+		c.Refuse("search/search.go: method Context.DocValueReaderForReader(reader, fields) not found")
+	}
+	readerParam := dvf.Type.Params.List[0].Names[0].Name
+	recvVar := ""
+	if dvf.Recv != nil && len(dvf.Recv.List) == 1 && len(dvf.Recv.List[0].Names) == 1 {
+		recvVar = dvf.Recv.List[0].Names[0].Name
+	}
+	indexedByReader := func(e ast.Expr) bool {
+		ix, ok := e.(*ast.IndexExpr)
+		if !ok {
+			return false
+		}
+		id, ok := ix.Index.(*ast.Ident)
+		return ok && id.Name == readerParam
+	}
+	keyedRead, keyedWrite, returnsReceiverField := false, false, false
+	ast.Inspect(dvf.Body, func(n ast.Node) bool {
+		switch x := n.(type) {
+		case *ast.AssignStmt:
+			for _, l := range x.Lhs {
+				if indexedByReader(l) {
+					keyedWrite = true
+				}
+			}
+			for _, r := range x.Rhs {
+				if indexedByReader(r) {
+					keyedRead = true
+				}
+			}
+		case *ast.ReturnStmt:
+			for _, r := range x.Results {
+				if indexedByReader(r) {
+					keyedRead = true
+				}
+				if se, ok := r.(*ast.SelectorExpr); ok {
+					if id, ok := se.X.(*ast.Ident); ok && id.Name == recvVar {
+						returnsReceiverField = true // one reader for the whole search, whatever the argument
+					}
+				}
+			}
+		}
+		return true
+	})
+	dvKeyed := keyedRead && keyedWrite && !returnsReceiverField
+
 	var b strings.Builder
 	b.WriteString("import Bluge.C09.GoBind\n/-! GENERATED by /verif/go/extract (c09.go, c09tr.go) from search/sort.go, search/source.go, search/collector and search.go of the\nrepository under check. Do not edit: `./check C09` rewrites this file from the working tree on every run. -/\n")
 	b.WriteString("set_option linter.unusedVariables false\nnamespace BlugeGen.C09\n\n")
@@ -273,6 +323,7 @@ func genC09(c *Ctx) {
 	b.WriteString(tables)
 	fmt.Fprintf(&b, "/-- `SortOrder.Copy` allocates new `Sort` objects (true) or copies the pointers only (false) -/\ndef copyIsDeep : Bool := %v\n\n", deep)
 	fmt.Fprintf(&b, "/-- `TopNSearch.Collector()` calls `Reverse` only on a value obtained from `s.sort.Copy()` -/\ndef collectorReversesACopy : Bool := %v\n\n", reversesACopy)
+	fmt.Fprintf(&b, "/-- `search.Context.DocValueReaderForReader` looks its doc value reader up, and stores it, under its reader argument -/\ndef dvReaderKeyedByReader : Bool := %v\n\n", dvKeyed)
 	b.WriteString("/-- the fields `SortOrder.Reverse` negates in every element -/\ndef reverseFlips : List String := [")
 	for i, f := range flipNames {
 		if i > 0 {
@@ -285,6 +336,7 @@ func genC09(c *Ctx) {
 	c.Summary["copyIsDeep"] = deep
 	c.Summary["collectorReversesACopy"] = reversesACopy
 	c.Summary["reverseFlips"] = flipNames
+	c.Summary["dvReaderKeyedByReader"] = dvKeyed
 	c.Summary["translated"] = []string{"highTerm", "lowTerm", "SortOrder.Compare", "sortFirstLast.Value", "SortOrder.Reverse (element update)"}
 	c.Summary["statements"] = len(facts.stmts)
 	c.Summary["derived_facts"] = len(facts.derived)
